@@ -39,6 +39,11 @@ func (x *Exec) callKey(p *Path, cc *ssa.CallCommon) string {
 	}
 	if f := cc.StaticCallee(); f != nil {
 		if f.Pkg != nil {
+			if x.fn != nil && x.fn.Pkg != nil && f.Pkg != x.fn.Pkg {
+				// a callee of another package is named pkg.Name, so that `multibuf.New` and `errors.New` can be told
+				// apart in contracts (a bare `New` still matches both, by suffix)
+				return f.Pkg.Pkg.Name() + "." + f.RelString(f.Pkg.Pkg)
+			}
 			return f.RelString(f.Pkg.Pkg)
 		}
 		return f.String()
